@@ -150,14 +150,113 @@ def install(I, torch):
         }
     )
 
-    nn = S(
-        "torch.nn",
-        {
-            "Module": Module,
-            "Parameter": B("nn.Parameter", parameter),
-            "ModuleList": ModuleList,
-        },
-    )
+    # ---- layers (assumed contracts, A3): Linear acts on the LAST axis with its own weight / bias parameters
+    Linear = NativeClass("nn.Linear", [Module])
+
+    def lin_init(I2, self, in_features, out_features, bias=True, **kw):
+        m_init(I2, self)
+        if not (isinstance(in_features, int) and isinstance(out_features, int)):
+            raise Unsupported("nn.Linear with symbolic feature counts")
+        W = parameter(I2, Tensor(core.uninterp_tensor("W", [Dim([out_features]), Dim([in_features])], "real")))
+        m_setattr(I2, self, "weight", W)
+        if bias:
+            Bv = parameter(I2, Tensor(core.uninterp_tensor("b", [Dim([out_features])], "real")))
+            m_setattr(I2, self, "bias", Bv)
+        else:
+            self.f["bias"] = None
+        self.f["in_features"], self.f["out_features"] = in_features, out_features
+
+    def lin_forward(I2, self, x):
+        from . import tshape
+
+        xv = lift(x)
+        W = self.f["weight"].val
+        nin, nout = self.f["in_features"], self.f["out_features"]
+        if xv.rank < 1 or xv.shape[-1].concrete() != nin:
+            raise IN.RaisedEx("RuntimeError", f"mat1 and mat2 shapes cannot be multiplied (last axis {xv.shape[-1] if xv.rank else None} vs {nin})", I2.ctx.loc)
+        bias = self.f["bias"].val if self.f.get("bias") is not None else None
+
+        def fn(idx):
+            j = idx[-1]
+            acc = None
+            for k in range(nin):
+                term = core.zreal(W.at([j, (k,) if nin != 1 else ()])) * core.zreal(xv.at(list(idx[:-1]) + [(k,) if nin != 1 else ()]))
+                acc = term if acc is None else acc + term
+            if bias is not None:
+                acc = acc + core.zreal(bias.at([j]))
+            return acc
+
+        return Tensor(STensor(list(xv.shape[:-1]) + [Dim([nout])], fn, "real"))
+
+    Linear.native_methods.update({"__init__": lin_init, "forward": lin_forward})
+
+    def elementwise_module(name, fterm):
+        C = NativeClass(f"nn.{name}", [Module])
+
+        def fwd(I2, self, x):
+            from . import tlib as _tl
+
+            return Tensor(_tl.ew1(lift(x), lambda v: fterm(core.zreal(v)), "real"))
+
+        C.native_methods.update({"__init__": lambda I2, self, *a, **k: m_init(I2, self), "forward": fwd})
+        return C
+
+    from . import tlib as _tlib
+
+    def _uf(nm):
+        f = z3.Function(f"act_{nm}", z3.RealSort(), z3.RealSort())
+        return lambda v: f(v)
+
+    acts = {
+        "Tanh": elementwise_module("Tanh", _tlib.tanh_term),
+        "Sigmoid": elementwise_module("Sigmoid", _uf("sigmoid")),
+        "ReLU": elementwise_module("ReLU", lambda v: z3.If(v > 0, v, z3.RealVal(0))),
+        "GELU": elementwise_module("GELU", _uf("gelu")),
+        "Softplus": elementwise_module("Softplus", _uf("softplus")),
+        "Identity": elementwise_module("Identity", lambda v: v),
+    }
+    Identity = acts["Identity"]
+    Identity.native_methods["forward"] = lambda I2, self, x: x
+
+    Sequential = NativeClass("nn.Sequential", [Module])
+
+    def seq_init(I2, self, *mods):
+        m_init(I2, self)
+        self.f["_tpv_list"] = list(mods)
+        for i, m in enumerate(mods):
+            self.f.setdefault("_tpv_modules", {})[str(i)] = m
+
+    def seq_forward(I2, self, x):
+        for m in self.f["_tpv_list"]:
+            x = I2.call(m, [x])
+        return x
+
+    Sequential.native_methods.update({"__init__": seq_init, "forward": seq_forward, "__iter__": lambda I2, self: list(self.f["_tpv_list"]), "__len__": lambda I2, self: len(self.f["_tpv_list"]), "__getitem__": lambda I2, self, k: self.f["_tpv_list"][k]})
+
+    ParameterList = NativeClass("nn.ParameterList", [Module])
+
+    def pl_init(I2, self, params=None):
+        m_init(I2, self)
+        self.f["_tpv_list"] = []
+        for p in I2.iterate(params) if params is not None else []:
+            pl_append(I2, self, p)
+
+    def pl_append(I2, self, p):
+        n_ = len(self.f["_tpv_list"])
+        self.f["_tpv_list"].append(p)
+        self.f.setdefault("_tpv_params", {})[str(n_)] = p
+        return self
+
+    ParameterList.native_methods.update({"__init__": pl_init, "append": pl_append, "__iter__": lambda I2, self: list(self.f["_tpv_list"]), "__len__": lambda I2, self: len(self.f["_tpv_list"]), "__getitem__": lambda I2, self, k: self.f["_tpv_list"][k]})
+
+    def init_noop(I2, t, *a, **k):
+        return t
+
+    nn_init = S("torch.nn.init", {k: B(k, init_noop) for k in ("xavier_normal_", "xavier_uniform_", "kaiming_uniform_", "uniform_", "normal_", "zeros_", "ones_")})
+    functional = S("torch.nn.functional", {"relu": torch.table["relu"], "tanh": torch.table["tanh"]})
+    nn_tbl = {"Module": Module, "Parameter": B("nn.Parameter", parameter), "ModuleList": ModuleList, "Linear": Linear, "Sequential": Sequential, "ParameterList": ParameterList, "init": nn_init, "functional": functional}
+    nn_tbl.update(acts)
+    nn = S("torch.nn", nn_tbl)
     Dataset = NativeClass("torch.utils.data.Dataset")
     DataLoader = NativeClass("torch.utils.data.DataLoader")
 
@@ -180,7 +279,26 @@ def install(I, torch):
     torch.table["utils"] = S("torch.utils", {"data": S("torch.utils.data", {"Dataset": Dataset, "DataLoader": DataLoader}), "DataLoader": DataLoader})
     torch.table["nn"] = nn
     I.nn_module_class = Module
+    LM = NativeClass("pl.LightningModule", [Module])
+    LM.native_methods.update({"log": lambda I2, self, *a, **k: None, "__init__": m_init})
+    LM.props["device"] = lambda I2, self: "cpu"
     I.repo.externals["pytorch_lightning"] = S(
         "pytorch_lightning",
-        {"LightningModule": NativeClass("pl.LightningModule", [Module]), "callbacks": S("pl.callbacks", {"Callback": NativeClass("pl.Callback")})},
+        {"LightningModule": LM, "callbacks": S("pl.callbacks", {"Callback": NativeClass("pl.Callback")})},
     )
+    # torch.autograd.Function: apply(*args) = forward(ctx, *args); the custom backward is recorded as ghost
+    Function = NativeClass("torch.autograd.Function")
+
+    def fn_apply(I2, cls, *args, **kwargs):
+        ctx = IN.SObj(NativeClass("autograd.ctx"))
+        ctx.f["saved_tensors"] = ()
+        ctx.f["__overrides__"] = {"save_for_backward": lambda I3, c, *ts: c.f.__setitem__("saved_tensors", tuple(ts))}
+        out = I2.call(I2.getattr(cls, "forward"), [ctx] + list(args), kwargs)
+        if isinstance(out, Tensor):
+            out.meta["custom_backward"] = (cls, ctx, args)
+        return out
+
+    Function.native_methods["apply"] = fn_apply
+    Function.classmethods.add("apply")
+    torch.table["autograd"] = S("torch.autograd", {"Function": Function})
+    torch.table["optim"] = S("torch.optim", {"Adam": IN.Opaque("torch.optim.Adam"), "LBFGS": IN.Opaque("torch.optim.LBFGS"), "SGD": IN.Opaque("torch.optim.SGD")})
